@@ -534,6 +534,13 @@ def _apply(op, w, sig, route, cls, rec):
     elif op == "rewrap_sd":  # the aliasing scenario (family alias/)
         w2 = cls(w)
         w2.set_default(**full)
+    elif op == "sibling_sd":  # ANOTHER wrapper of the same user function gets defaults for every name
+        w2 = cls(sig.f)
+        w2.set_default(**full)
+    elif op == "sibling_rd":  # ... or loses its declared defaults
+        w2 = cls(sig.f)
+        if sig.opt:
+            w2.remove_default(*sig.opt)
     else:
         raise ValueError(op)
 
@@ -731,6 +738,11 @@ def cases(tier):
         cs.append(seq_case(kind, 3, 1, ("rewrap_sd",), family="alias"))
     if thorough:
         cs.append(seq_case("UF", 2, 0, ("rewrap_sd", "call"), family="alias"))
+    # ---- two wrappers of ONE user function: changing the defaults of one never shows in the other
+    for kind in ("UF", "DUF"):
+        for seq in (("sibling_sd",), ("sibling_rd",), ("sibling_sd", "call")) + ((("sibling_rd", "pe_some"), ("sibling_sd", "sibling_rd")) if thorough else ()):
+            cs.append(seq_case(kind, 3, 1, seq, family="sibling"))
+    cs.append(seq_case("UF", 2, 2, ("sibling_rd",), family="sibling"))
     # ---- constants, explicit containers
     cs.append(constant_case("UF"))
     cs.append(constant_case("DUF"))
